@@ -117,7 +117,10 @@ def finish (s : St) (i : Nat) (f : Fin) : Option St :=
 
 /-- `TimerScheduler._timer_loop` + `resubmitter` (executor.py:97-128, 207-221): the earliest due entry is
 popped; if the branch can resume it is reset to PENDING, an empty checkpoint refreshes the state, and
-the branch is submitted again (RUNNING).  A failing checkpoint (or a pool that was shut down) is fatal. -/
+the branch is submitted again (RUNNING) - unless completion or suspension has already been decided (the
+completion event is set): then the resubmitter, which checks the event and submits under the callbacks' lock,
+leaves the branch PENDING and starts nothing (fix: no user code is started after the decision).  A failing
+refresh checkpoint is fatal. -/
 def timerFire (s : St) (i : Nat) (ckOk : Bool) : Option St :=
   match s.timers with
   | [] => none
@@ -133,8 +136,9 @@ def timerFire (s : St) (i : Nat) (ckOk : Bool) : Option St :=
         match s.status i with
         | .suspendedUntil t =>
           if t ≤ s.clock then
-            (if ckOk ∧ s.out.isNone then some { (setStatus s i .running) with queue := s.queue ++ [i] }
-             else some { (setStatus s i .pending) with fatal := true, evt := true })
+            (if ¬ ckOk then some { (setStatus s i .pending) with fatal := true, evt := true }
+             else if s.evt then some (setStatus s i .pending)   -- already decided: the branch is not started again
+             else some { (setStatus s i .running) with queue := s.queue ++ [i] })
           else some s
         | _ => some s
 
